@@ -27,6 +27,9 @@ def repo_state():
         return {"head": "unknown", "dirty": None, "err": str(e)}
 
 
+ABORT = {"kills": 0, "limit": 10}
+
+
 class ChunkRun:
     """One worker subprocess over a list of cases, with a per-case wall-clock watchdog.
     A case that exceeds the watchdog is *inconclusive* (never a verdict); the rest of the chunk is re-run."""
@@ -39,6 +42,10 @@ class ChunkRun:
         pending = list(self.cases)
         attempt = 0
         while pending:
+            if ABORT["kills"] >= ABORT["limit"]:
+                for c in pending:
+                    results[c["id"]] = {"inconclusive": f"run aborted after {ABORT['kills']} watchdog kills / worker deaths", "viol": [], "obs": {}}
+                break
             attempt += 1
             inp = os.path.join(self.scratch, f"{self.tag}.{attempt}.in.json")
             out = os.path.join(self.scratch, f"{self.tag}.{attempt}.out.jsonl")
@@ -83,6 +90,8 @@ class ChunkRun:
                     continue
                 time.sleep(0.05)
             done_ids = set(results)
+            if killed_case is not None or rc != 0:
+                ABORT["kills"] += 1
             if killed_case is not None and killed_case not in results:
                 results[killed_case] = {"inconclusive": f"watchdog {self.case_timeout}s", "viol": [], "obs": {}}
             elif rc != 0 and cur is not None and cur not in results:
@@ -200,6 +209,9 @@ def main(argv=None):
         return 0
 
     cases = mod.gen_cases(tier, seed)
+    only = os.environ.get("FPVERIF_ONLY")
+    if only:
+        cases = [c for c in cases if only in json.dumps(c, default=str)]
     if a.max_cases:
         cases = cases[:a.max_cases]
     for i, c in enumerate(cases):
@@ -214,10 +226,12 @@ def main(argv=None):
     inconcl = []
     viol_by_sig = collections.defaultdict(list)
     samples = []
+    slow = []
     for c in cases:
         r = results.get(c["id"]) or {"inconclusive": "no result", "viol": [], "obs": {}}
         for k, v in (r.get("obs") or {}).items():
             obs[k] += v
+        slow.append((r.get("t", 0) or 0, c["id"]))
         for s in r.get("side") or []:
             side[s] += 1
         if r.get("inconclusive"):
@@ -304,6 +318,13 @@ def main(argv=None):
           f"known={sum(known_seen.values())} unlisted_violations={n_viol} wall={wall:.1f}s")
     if a.verbose or missing:
         print("  observations:", dict(sorted(obs.items())))
+    if a.verbose:
+        slow.sort(reverse=True)
+        for t, cid in slow[:6]:
+            c = cases[cid]
+            print(f"  slow case {cid}: {t}s", json.dumps({k: v for k, v in c.items() if k not in ('id', 'spec')}, default=str)[:300])
+        for ic in inconcl[:6]:
+            print("  inconclusive:", ic["case"], ic["why"][:300], json.dumps({k: v for k, v in cases[ic["case"]].items() if k not in ('id', 'spec')}, default=str)[:300])
     if side:
         print("  side observations (not part of this verdict):", dict(side))
     if n_viol:
